@@ -451,7 +451,7 @@ func (g *gcState) opPushManifest(t *rapid.T) {
 	} else {
 		cfg := g.drawBlobRef(t, mr, "config")
 		if cfg == "" {
-			t.Skip("no blobs")
+			g.skip(t, "no blobs")
 		}
 		layers, sizes := []string{}, []int{}
 		for i, n := 0, rapid.IntRange(0, 3).Draw(t, "nLayers"); i < n; i++ {
@@ -481,7 +481,7 @@ func (g *gcState) opDelete(t *rapid.T) {
 	switch rapid.IntRange(0, 2).Draw(t, "what") {
 	case 0:
 		if len(mr.tags) == 0 {
-			t.Skip("no tags")
+			g.skip(t, "no tags")
 		}
 		tg := rapid.SampledFrom(sortedKeys(mr.tags)).Draw(t, "tag")
 		r := g.do("DELETE", "/v2/"+rn+"/manifests/"+tg, nil, nil)
@@ -492,7 +492,7 @@ func (g *gcState) opDelete(t *rapid.T) {
 		delete(mr.tags, tg)
 	case 1:
 		if len(mr.mans) == 0 {
-			t.Skip("no manifests")
+			g.skip(t, "no manifests")
 		}
 		d := rapid.SampledFrom(sortedKeys(mr.mans)).Draw(t, "digest")
 		r := g.do("DELETE", "/v2/"+rn+"/manifests/"+d, nil, nil)
@@ -507,7 +507,7 @@ func (g *gcState) opDelete(t *rapid.T) {
 	case 2:
 		pl := mr.plainBlobs()
 		if len(pl) == 0 {
-			t.Skip("no blobs")
+			g.skip(t, "no blobs")
 		}
 		d := rapid.SampledFrom(pl).Draw(t, "blob")
 		r := g.do("DELETE", "/v2/"+rn+"/blobs/"+d, nil, nil)
